@@ -217,6 +217,7 @@ namespace bloch::runtime {
         RuntimeEvaluator* owner = nullptr;
         bool marked = false;
         bool trackedRecorded = false;
+        bool heldAsGarbage = false;
         // Simulator qubits allocated for this object's own qubit fields. Only these are reset
         // and released when the object dies; a field may later hold a handle owned elsewhere.
         std::vector<int> ownedQubits;
@@ -390,6 +391,10 @@ namespace bloch::runtime {
         // true while buildClassTable is laying classes out: static initialisers wait until
         // every class of the program exists (execute() then runs them in name order)
         bool m_buildingClassTable = false;
+        // Unreachable objects with qubit or @tracked fields that the collector came across: they
+        // end with the run (their outcome is recorded there), not at whatever moment a sweep of
+        // their owner would have released them.
+        std::vector<std::shared_ptr<Object>> m_heldGarbage;
     };
 
 }  // namespace bloch::runtime
